@@ -273,3 +273,41 @@ package rueidis
 // round trip, spec level: decoding position j of the encoding of v gives back v[j] (f32from(f32bits(x)) == x)
 //@ lemma [C45 roundtrip32] forall x float32 :: f32from(f32bits(x)) == x
 //@ lemma [C45 roundtrip64] forall x float64 :: f64from(f64bits(x)) == x
+
+// ---------------------------------------------------------------------------------------------
+// C14 — commands are written as RESP arrays of bulk strings (resp.go writeN/writeB/writeS/writeCmd).
+// wout(o) (spec/stdlib.contracts) is the byte sequence handed to the bufio.Writer.
+// p10floor(n): the largest power of ten not above n (n >= 1); decpad(n, d): n written with place values d, d/10, .. 1.
+//@ specfn p10floor(n int) int = ite(n < 10, 1, ite(n < 100, 10, ite(n < 1000, 100, ite(n < 10000, 1000, ite(n < 100000, 10000, ite(n < 1000000, 100000, ite(n < 10000000, 1000000, ite(n < 100000000, 10000000, ite(n < 1000000000, 100000000, ite(n < 10000000000, 1000000000, ite(n < 100000000000, 10000000000, ite(n < 1000000000000, 100000000000, ite(n < 10000000000000, 1000000000000, ite(n < 100000000000000, 10000000000000, 100000000000000))))))))))))))
+//@ specfn ispow10(d int) bool = d == 1 || d == 10 || d == 100 || d == 1000 || d == 10000 || d == 100000 || d == 1000000 || d == 10000000 || d == 100000000 || d == 1000000000 || d == 10000000000 || d == 100000000000 || d == 1000000000000 || d == 10000000000000 || d == 100000000000000
+//@ specfn rec decpad(n int, d int) string = ite(d <= 0, "", bytestr('0' + n / d) + decpad(n % d, d / 10))
+//@ specfn dec(n int) string = decpad(n, p10floor(n))
+// assumed (libm): for 10 <= n < 10^15 the float expression in writeN yields the leading place value
+//@ axiom [libm-leading-place-value] forall n int :: {math.Log10(float64(n))} (10 <= n && n < 1000000000000000) ==> int(math.Pow10(int(math.Log10(float64(n))))) == p10floor(n)
+
+//@ func writeN
+//@   requires 0 <= n && n < 1000000000000000
+//@   safety C14
+//@   modifies wout(o)
+//@   ensures [C14 header-is-id-decimal-crlf] wout(o) == old(wout(o)) + bytestr(id) + dec(old(n)) + "\r\n"
+//@   loop 0: invariant [C14] 0 <= n && (d > 0 ==> n < 10 * d) && (d <= 0 ==> n == 0) && (d == 0 || ispow10(d)) && wout(o) + decpad(n, d) == old(wout(o)) + bytestr(id) + dec(old(n))
+
+//@ func writeB
+//@   requires len(str) < 1000000000000000
+//@   safety C14
+//@   modifies wout(o)
+//@   ensures [C14 bulk-string-frame] wout(o) == old(wout(o)) + bytestr(id) + dec(len(str)) + "\r\n" + str + "\r\n"
+
+//@ func writeS
+//@   safety C14
+//@   modifies wout(o)
+//@   ensures [C14 simple-string-frame] wout(o) == old(wout(o)) + bytestr(id) + str + "\r\n"
+
+// enccmd(cmd, n): the bulk-string frames of cmd[0..n)
+//@ specfn rec enccmd(cmd []string, n int) string = ite(n <= 0, "", enccmd(cmd, n - 1) + "$" + dec(len(cmd[n - 1])) + "\r\n" + cmd[n - 1] + "\r\n")
+//@ func writeCmd
+//@   requires len(cmd) < 1000000000000000
+//@   safety C14
+//@   modifies wout(o)
+//@   ensures [C14 array-of-bulk-strings] wout(o) == old(wout(o)) + "*" + dec(len(cmd)) + "\r\n" + enccmd(cmd, len(cmd))
+//@   loop 0: invariant [C14] rangeindex >= -1 && rangeindex < len(cmd) && wout(o) == old(wout(o)) + "*" + dec(len(cmd)) + "\r\n" + enccmd(cmd, rangeindex + 1)
